@@ -132,3 +132,14 @@ Proof.
     destruct (Z_lt_le_dec (Z.of_nat k) w) as [Hlt|Hge]; [|lia].
     assert (10 ^ Z.of_nat k <= 10 ^ w) by (apply Z.pow_le_mono_r; lia). lia.
 Qed.
+Lemma fmt_zero_pad_blen_le w n j : 0 <= w <= j -> 0 <= n < 10 ^ j -> blen (fmt_zero_pad w n) <= j.
+Proof.
+  intros Hw Hn. unfold fmt_zero_pad. destruct (n <? 10 ^ w) eqn:E.
+  - rewrite low_digits_blen. lia.
+  - destruct (dec_nonneg_low n ltac:(lia)) as (k & Hk & -> & Hb & Hl). rewrite low_digits_blen.
+    assert (Hw0 : 0 < 10 ^ w) by (apply Z.pow_pos_nonneg; lia).
+    assert (Hj : j <> 0) by (intros ->; change (10 ^ 0) with 1 in Hn; lia).
+    destruct Hl as [-> | Hl]; [lia|].
+    destruct (Z_le_gt_dec (Z.of_nat k) j) as [Hle|Hgt]; [exact Hle|exfalso].
+    assert (10 ^ j <= 10 ^ (Z.of_nat k - 1)) by (apply Z.pow_le_mono_r; lia). lia.
+Qed.
